@@ -860,7 +860,12 @@ func c10RunConfig(l *Lab, rep *Report, idp *IdP, cfg c10Cfg, ci int) {
 		}
 		if bad == "" {
 			if err := c10Probe(w); err != nil {
-				bad = "liveness probe failed: " + err.Error()
+				if labResourceError(err) {
+					// the lab's own process ran out of descriptors / ports: says nothing about the gateway
+					rep.Inconclusive("liveness probe could not run: " + err.Error())
+				} else {
+					bad = "liveness probe failed: " + err.Error()
+				}
 			}
 		}
 		if bad == "" {
@@ -974,7 +979,7 @@ func c10Bisect(w *c10World, in []c10Input) (*c10Input, string, c10Ctx) {
 			}
 		}
 		if what == "" {
-			if err := c10Probe(w); err != nil {
+			if err := c10Probe(w); err != nil && !labResourceError(err) {
 				what = "liveness probe failed afterwards: " + err.Error()
 			}
 		}
@@ -1015,4 +1020,14 @@ func c10Probe(w *c10World) error {
 		return fmt.Errorf("metrics: %v", err)
 	}
 	return nil
+}
+
+// labResourceError: the error is about the lab process itself (descriptor or
+// port exhaustion), not about the peer.
+func labResourceError(err error) bool {
+	if err == nil {
+		return false
+	}
+	e := err.Error()
+	return strings.Contains(e, "too many open files") || strings.Contains(e, "cannot assign requested address") || strings.Contains(e, "no buffer space")
 }
